@@ -29,7 +29,7 @@ class Real:
         from pyworkers.worker import Worker
         self.Worker = Worker
         with Worker._children_lock:
-            Worker._active_children = []
+            Worker._active_children.clear()
         self.ws = []       # (kind, worker, event)
         self.kinds = kinds
 
@@ -90,7 +90,7 @@ class Real:
             except Exception:
                 pass
         with self.Worker._children_lock:
-            self.Worker._active_children = []
+            self.Worker._active_children.clear()
 
 
 def gen_history(rng, n, procs):
@@ -170,6 +170,65 @@ def run_real(ops):
     return obs, oracle_fail
 
 
+def _pid_alive(pid):
+    try:
+        with open(f'/proc/{pid}/stat') as f:
+            return f.read().rsplit(')', 1)[1].split()[0] not in ('Z', 'X')
+    except Exception:
+        return False
+
+
+def forgotten_handles(ctx):
+    """a program that drops its handle of a running worker (fire-and-forget) still created that worker: active_children()
+    must list it, and leaving autoclose_active_children() must end it"""
+    import gc
+    import os
+    from pyworkers.worker import Worker, autoclose_active_children
+    from pyworkers.process import ProcessWorker
+    from pyworkers.persistent_process import PersistentProcessWorker
+    from pyworkers.thread import ThreadWorker
+    with Worker._children_lock:
+        Worker._active_children.clear()
+    ev = threading.Event()
+    pids = []
+    tids = []
+
+    def make():
+        # (in a function of its own: no local variable of the caller keeps the handles alive)
+        pids.append(ProcessWorker(sleeper).pid)
+        pids.append(PersistentProcessWorker(noop).pid)
+        tids.append(ThreadWorker(coop_wait, args=(ev,)).tid)
+    make()
+    gc.collect()
+    time.sleep(0.2)
+    gc.collect()
+    listed = list(Worker.active_children())
+    got_pids = sorted(w.pid for w in listed if not w.is_thread)
+    got_tids = sorted(w.tid for w in listed if w.is_thread)
+    alive_pids = sorted(p for p in pids if _pid_alive(p))
+    ok_list = got_pids == sorted(alive_pids) and got_tids == sorted(tids)
+    del listed
+    gc.collect()
+    with autoclose_active_children():
+        pass
+    ev.set()
+    time.sleep(0.3)
+    left = [p for p in pids if _pid_alive(p)]
+    ctx.case(('forgotten-handles',), True, sample={'case': 'handles dropped while the workers run', 'created_pids': pids, 'listed_pids': got_pids, 'alive_after_autoclose': left})
+    if not ok_list:
+        ctx.fail('exactness:forgotten-handle', f'active_children() lists processes {got_pids} / threads {got_tids} although the live workers created by this process are {alive_pids} / {tids} (their handles were dropped)',
+                 {'kind': 'forgotten_handles'})
+    if left:
+        ctx.fail('autoclose:forgotten-handle', f'worker processes {left} are still alive after leaving autoclose_active_children() (their handles had been dropped)', {'kind': 'forgotten_handles'})
+    for p_ in left:
+        try:
+            os.kill(p_, 9)
+        except Exception:
+            pass
+    with Worker._children_lock:
+        Worker._active_children.clear()
+
+
 def concurrent_registration(ctx):
     """workers are created by one thread while others are inside (slow) active_children() scans: none may be lost"""
     from pyworkers.worker import Worker
@@ -181,7 +240,7 @@ def concurrent_registration(ctx):
                 time.sleep(0.002)
             return super().is_alive()
     with Worker._children_lock:
-        Worker._active_children = []
+        Worker._active_children.clear()
     stop = threading.Event()
 
     def scanner():
@@ -214,7 +273,7 @@ def concurrent_registration(ctx):
     if lost:
         ctx.fail('concurrent:registration-lost', f'{len(lost)} of {len(ws)} live workers created while other threads were inside active_children() are no longer listed', {'kind': 'concurrent_registration', 'lost_indices': lost})
     with Worker._children_lock:
-        Worker._active_children = []
+        Worker._active_children.clear()
 
 
 def concurrent_stress(ctx, seconds):
@@ -222,7 +281,7 @@ def concurrent_stress(ctx, seconds):
     from pyworkers.worker import Worker
     from pyworkers.thread import ThreadWorker
     with Worker._children_lock:
-        Worker._active_children = []
+        Worker._active_children.clear()
     stop = threading.Event()
     errors = []
     created = []
@@ -307,7 +366,14 @@ def main(ctx: Ctx):
                 ctx.broke('correspondence', 'Registry.run vs Worker registry', f'ops={to_line(ops)[:400]}\n model={mo[:20]}\n impl ={obs[:20]}')
     concurrent_stress(ctx, 2 if not T else 10)
     concurrent_registration(ctx)
+    forgotten_handles(ctx)
 
 
 def replay(case):
+    if case.get('kind') == 'forgotten_handles':
+        class C:
+            def case(self, *a, **k): print('observed', k.get('sample'))
+            def fail(self, sig, what, desc): print('FAIL', sig, what)
+        forgotten_handles(C())
+        return
     print(run_real([tuple(o) for o in case['ops']]))
